@@ -292,8 +292,14 @@ func (a *nilerr) implies(cond ssa.Value, branch bool, fn *ssa.Function) bool {
 			}
 		}
 	case *ssa.Call:
-		if callee := c.Call.StaticCallee(); callee != nil && a.FE[callee] && !branch {
+		if callee := c.Call.StaticCallee(); callee != nil && a.FE[callee] && !branch && c.Call.Signature().Results().Len() == 1 {
 			return true
+		}
+	case *ssa.Extract:
+		if cl, ok := c.Tuple.(*ssa.Call); ok && !branch {
+			if callee := cl.Call.StaticCallee(); callee != nil && a.FE[callee] && c.Index == cl.Call.Signature().Results().Len()-1 {
+				return true
+			}
 		}
 	}
 	return false
@@ -444,7 +450,8 @@ func ruleNilErr(p *Program, r *Reporter) {
 			out, _ := a.analyse(fn)
 			ar := true
 			rs := sigResults(fn)
-			fe := len(rs) == 1 && isBoolType(rs[0])
+			// (a boolean handed back last, next to other results, says the same)
+			fe := len(rs) >= 1 && isBoolType(rs[len(rs)-1])
 			nret := 0
 			for _, b := range fn.Blocks {
 				ret, ok := terminator(b).(*ssa.Return)
@@ -456,7 +463,7 @@ func ruleNilErr(p *Program, r *Reporter) {
 					ar = false
 				}
 				if fe {
-					c, isc := ret.Results[0].(*ssa.Const)
+					c, isc := returnOperand(ret, len(ret.Results)-1).(*ssa.Const)
 					if !isc {
 						fe = false
 					} else if !constant.BoolVal(c.Value) && !out[b] {
@@ -1464,8 +1471,17 @@ func ruleTernGuard(p *Program, r *Reporter) {
 	assertsTernary := func(f *ssa.Function, v ssa.Value) bool {
 		for _, b := range f.Blocks {
 			for _, ins := range b.Instrs {
-				if ta, ok := ins.(*ssa.TypeAssert); ok && ta.X == v {
-					if pt, ok := ta.AssertedType.(*types.Pointer); ok && isNamed(pt.Elem(), "ast", "TernaryExpression") {
+				if ta, ok := ins.(*ssa.TypeAssert); ok {
+					pt, ok := ta.AssertedType.(*types.Pointer)
+					if !ok || !isNamed(pt.Elem(), "ast", "TernaryExpression") {
+						continue
+					}
+					if ta.X == v {
+						return true
+					}
+					// the node tested is taken from a list of nodes still to
+					// be looked at, which starts with the one handed in
+					if _, ok := worklistSearch(f, v); ok {
 						return true
 					}
 				}
@@ -1633,6 +1649,19 @@ func ternarySearchComplete(p *Program, r *Reporter, h *ssa.Function) {
 		}
 		return true
 	})
+	if !hasSwitch && len(h.Params) > 0 {
+		var prm ssa.Value
+		for _, q := range h.Params {
+			if isASTish(q.Type()) {
+				prm = q
+				break
+			}
+		}
+		if g, ok := worklistSearch(h, prm); ok && prm != nil && p.FuncDecl(g) != nil {
+			decl, info = p.FuncDecl(g), p.Info(g)
+			hasSwitch = true
+		}
+	}
 	if !hasSwitch {
 		for _, b := range h.Blocks {
 			for _, ins := range b.Instrs {
@@ -1882,4 +1911,141 @@ func ruleTopStop(p *Program, r *Reporter) {
 		}
 		r.Check(good, "top-level loop stopping at "+tok+" records an error", p.Pos(fn.Pos()), "an error is appended when the loop stopped at this token", "the statement loop stops at token kind "+tok+" and the program is returned without an error: everything from that token on is silently dropped")
 	}
+}
+
+// worklistSearch: f looks for a ternary with an explicit list of nodes still
+// to be examined instead of calling itself: the list starts with the node
+// handed in (prm); in a loop that runs while the list is not empty a node is
+// taken from it and tested; and a function that appends nothing but parts of
+// the node it is given (returnsPartsOf, with the list handed through) puts
+// that node's parts on the same list.  The function that lists the parts.
+func worklistSearch(f *ssa.Function, prm ssa.Value) (*ssa.Function, bool) {
+	if prm == nil {
+		return nil, false
+	}
+	for _, b := range f.Blocks {
+		for _, ins := range b.Instrs {
+			ta, ok := ins.(*ssa.TypeAssert)
+			if !ok {
+				continue
+			}
+			pt, ok := ta.AssertedType.(*types.Pointer)
+			if !ok || !isNamed(pt.Elem(), "ast", "TernaryExpression") {
+				continue
+			}
+			// the node tested: an element of a list
+			ld, ok := ta.X.(*ssa.UnOp)
+			if !ok || ld.Op != token.MUL {
+				continue
+			}
+			ia, ok := ld.X.(*ssa.IndexAddr)
+			if !ok {
+				continue
+			}
+			// where the list comes from: back through φ, re-slicing and in-place
+			// element swaps to literals and calls
+			var calls []*ssa.Call
+			hasParam := false
+			seen := map[ssa.Value]bool{}
+			var back func(v ssa.Value, d int) bool
+			back = func(v ssa.Value, d int) bool {
+				if v == nil || seen[v] {
+					return true
+				}
+				seen[v] = true
+				if d > 12 {
+					return false
+				}
+				switch x := v.(type) {
+				case *ssa.Phi:
+					for _, e := range x.Edges {
+						if !back(e, d+1) {
+							return false
+						}
+					}
+					return true
+				case *ssa.Slice:
+					if al, isAl := x.X.(*ssa.Alloc); isAl {
+						elems, ok := listElems(x)
+						if !ok {
+							return false
+						}
+						for _, e := range elems {
+							if stripIfaceConv(e) == prm || e == prm {
+								hasParam = true
+							} else {
+								return false
+							}
+						}
+						_ = al
+						return true
+					}
+					return back(x.X, d+1)
+				case *ssa.Call:
+					if _, isB := x.Call.Value.(*ssa.Builtin); isB {
+						return false
+					}
+					calls = append(calls, x)
+					return true
+				}
+				return false
+			}
+			if !back(ia.X, 0) || !hasParam || len(calls) == 0 {
+				continue
+			}
+			var lister *ssa.Function
+			good := true
+			for _, c := range calls {
+				g := c.Call.StaticCallee()
+				k, ok := returnsPartsOf(g)
+				if !ok || k >= len(c.Call.Args) || stripIfaceConv(c.Call.Args[k]) != ssa.Value(ld) && c.Call.Args[k] != ssa.Value(ld) {
+					good = false
+					break
+				}
+				// the list handed in is this same list
+				handed := false
+				for i, arg := range c.Call.Args {
+					if i != k && types.Identical(arg.Type(), c.Type()) && seen[arg] {
+						handed = true
+					}
+					if i != k && types.Identical(arg.Type(), c.Type()) {
+						if sl, isSl := arg.(*ssa.Slice); isSl && seen[sl.X] {
+							handed = true
+						}
+					}
+				}
+				if !handed {
+					good = false
+					break
+				}
+				lister = g
+			}
+			if !good || lister == nil {
+				continue
+			}
+			// the loop runs while the list is not empty: a test of its length
+			// against zero whose failing side cannot reach the test again
+			loops := false
+			for _, b2 := range f.Blocks {
+				iff, ok := terminator(b2).(*ssa.If)
+				if !ok {
+					continue
+				}
+				bo, ok := iff.Cond.(*ssa.BinOp)
+				if !ok {
+					continue
+				}
+				lc, isLen := isBuiltinCall(bo.X, "len")
+				if k0, isC := constInt(bo.Y); isLen && isC && k0 == 0 && bo.Op == token.GTR && seen[lc.Call.Args[0]] {
+					if blockReaches(b2.Succs[0], b2, nil) && !blockReaches(b2.Succs[1], b2, nil) {
+						loops = true
+					}
+				}
+			}
+			if loops {
+				return lister, true
+			}
+		}
+	}
+	return nil, false
 }
